@@ -544,7 +544,7 @@ def worker(ctx, job):
         if job["mode"] == "ticks":
             for K in job["kills"]:
                 kill = None if K is None else {"kind": "tick", "tick": K}
-                resume = conf["reuse"] and (K is None or K <= 6 or K % 4 == 1)
+                resume = conf["reuse"] and (K is None or K <= 4 or K % 4 == 1)
                 run_scenario(ctx, conf, n, kill, resume, workdir, "c%dk%s" % (job["index"], K))
                 shutil.rmtree(os.path.join(workdir, "p-c%dk%s" % (job["index"], K)), ignore_errors=True)
             if job.get("sample"):
@@ -569,17 +569,17 @@ def worker(ctx, job):
 
 
 def run(ctx):
-    n = ctx.pick(24, 40)
-    confs = pick_configs(ctx.subrng("c23-configs"), ctx.pick(14, 72))
+    n = ctx.pick(20, 40)
+    confs = pick_configs(ctx.subrng("c23-configs"), ctx.pick(10, 56))
     jobs = []
-    chunk = ctx.pick(8, 14)
+    chunk = ctx.pick(7, 14)
     for ci, conf in enumerate(confs):
         kills = [None] + list(range(1, n))
         for a in range(0, len(kills), chunk):
             jobs.append({"mode": "ticks", "conf": conf, "n": n, "kills": kills[a:a + chunk],
                          "sample": ci == 0 and a == 0})
     if not ctx.quick:
-        lconfs = [c for c in confs if c["keep"] >= 1 and c["cycle"] <= 3 * DT][:6]
+        lconfs = [c for c in confs if c["keep"] >= 1 and c["cycle"] <= 3 * DT][:5]
         for conf in lconfs:
             for part in range(8):
                 jobs.append({"mode": "lines", "conf": conf, "n": 16, "part": part, "parts": 8})
